@@ -5,7 +5,7 @@ from __future__ import annotations
 import json
 import re
 
-from .flows import object_ids
+from .flows import named_refs, object_ids
 
 UUID_ANY = re.compile(r"[0-9a-f]{8}-[0-9a-f]{4}-4[0-9a-f]{3}-[89ab][0-9a-f]{3}-[0-9a-f]{12}")
 
@@ -109,6 +109,14 @@ def invented_object_dups(doc, keep: set):
             if u in seen:
                 out.append(f"invented id {u} names two objects: {seen[u]} and {path}")
             seen[u] = path
+    # named objects (groups, flows — defined here or only referred to): an invented identifier stands for ONE of them
+    who = {}
+    for kind, name, u, path in named_refs(doc):
+        if isinstance(u, str) and u and u not in keep:
+            who.setdefault(u, {})[(kind, name)] = path
+    for u, names in who.items():
+        if len(names) > 1:
+            out.append(f"invented id {u} stands for {len(names)} different named objects: " + ", ".join(f"{k} {n!r}" for k, n in sorted(names, key=repr)))
     return out
 
 
